@@ -300,12 +300,16 @@ fn run_overlap(a: &Args) -> Report {
             }
         }
         for (vb, (pc, pr)) in &pmap {
-            let overlaps_drain = drains.iter().any(|(dc, dr, _, _)| *dc < *pr && *dr > *pc);
+            // the known class: this push itself overlaps a drain, or another push that was in flight across a drain is
+            // still in flight while this one runs (a straggler that claimed its slot in an earlier cycle stores over it)
+            let own_overlap = drains.iter().any(|(dc, dr, _, _)| *dc < *pr && *dr > *pc);
+            let straggler = pushes.iter().any(|(ov, oc, or_)| ov.to_bits() != *vb && *oc < *pr && *or_ > *pc && drains.iter().any(|(dc, dr, _, _)| *dc < *or_ && *dr > *oc));
+            let overlaps_drain = own_overlap || straggler;
             let ys = yielded_by.get(vb).cloned().unwrap_or_default();
             let v = f64::from_bits(*vb);
             if ys.len() > 1 {
                 let sig = if overlaps_drain || ys.iter().any(|d| drain_overlapped(*d)) { "C16:push-overlaps-drain" } else { "C16:value-yielded-twice" };
-                rep.violation(sig, jo! {"what" => "a value was yielded by more than one drain", "value" => v, "drains" => J::A(ys.iter().map(|d| J::U(*d as u64)).collect()), "push_overlapped_a_drain" => overlaps_drain, "trial" => desc.clone()});
+                rep.violation(sig, jo! {"what" => "a value was yielded by more than one drain", "value" => v, "drains" => J::A(ys.iter().map(|d| J::U(*d as u64)).collect()), "push_or_a_concurrent_straggler_overlapped_a_drain" => overlaps_drain, "trial" => desc.clone()});
                 continue;
             }
             // first drain called after the push returned
